@@ -822,3 +822,79 @@ def damaged_cases(progs, per_prog=3):
             k = rng.randrange(len(lines))
             cases.append(Case("\n".join(lines[:k] + [lines[k] + " " + bad] + lines[k + 1:]), "F-err-lit", i, "newlines"))
     return cases
+
+
+# ------------------------------------------------------------------ systematic mutation / comment injection
+
+def systematic_mutants(progs, max_tokens=90, styles=("canonical", "newlines")):
+    """for each (small) program: delete each token in turn, duplicate each token, swap each adjacent pair,
+    and insert each token of a small pool at every 3rd position: near-valid inputs one edit away"""
+    cases = []
+    pool = [gogen.Tok('ident', 'zz'), gogen.Tok('op', ','), gogen.Tok('op', ';'), gogen.Tok('op', '('), gogen.Tok('op', ')'),
+            gogen.Tok('op', '{'), gogen.Tok('op', '}'), gogen.Tok('op', '['), gogen.Tok('op', ']'), gogen.Tok('int', '7'),
+            gogen.Tok('op', '.'), gogen.Tok('op', ':='), gogen.Tok('op', '='), gogen.Tok('op', '<-'), gogen.Tok('op', '*'),
+            gogen.Tok('op', ':'), gogen.Tok('string', '"s"')]
+    for pi, (rng, p) in enumerate(progs):
+        toks = p.tokens
+        if len(toks) > max_tokens:
+            continue
+        st = styles[pi % len(styles)]
+
+        def emit(tl, kind):
+            try:
+                cases.append(Case(gogen.render(tl, rng, st), "F-sys-" + kind, pi, st))
+            except Exception:
+                cases.append(Case(" ".join(t.text for t in tl), "F-sys-" + kind, pi, st))
+        for i in range(len(toks)):
+            emit(toks[:i] + toks[i + 1:], "del")
+            emit(toks[:i] + [toks[i]] + toks[i:], "dup")
+            if i + 1 < len(toks):
+                emit(toks[:i] + [toks[i + 1], toks[i]] + toks[i + 2:], "swap")
+            if i % 3 == pi % 3:
+                t = pool[(i + pi) % len(pool)]
+                emit(toks[:i] + [t] + toks[i:], "ins")
+    return cases
+
+
+REREAD_SNIPPETS = [
+    # constructs the parser reads twice (parse_type_spec's speculative parse, interface elements), struct
+    # bodies with line-end comments, control headers, composite literals, parameter lists
+    "type A [unsafe.Sizeof(struct {\n\ta int\n\tb string\n}{})]byte",
+    "type G[P *struct {\n\tx int\n\ty int\n}] struct{ v P }",
+    "type H[P interface{ m(); ~int | string }, Q any] []P",
+    "type K[P any] = map[P]struct {\n\tf int\n}",
+    "type L [N + len(struct {\n\ta int\n}{}.s)]int",
+    "type M[T C[struct {\n\ta int\n}]] int",
+    "type I interface {\n\tA | B\n\tm(x int) (y int)\n\tpkg.T\n\t~[]byte\n}",
+    "type S struct {\n\ta, b int \"tag\"\n\t*T\n\tpkg.U\n\tV[int]\n\tf func(x int) struct {\n\t\tz int\n\t}\n}",
+    "var x = struct {\n\ta int\n}{a: 1}",
+    "func (r *R[K, V]) m(a, b int, c ...string) (x int, err error) {\n\treturn\n}",
+    "func f() {\n\tif x := g(); x > 0 {\n\t} else if y {\n\t} else {\n\t}\n\tfor i := 0; i < n; i++ {\n\t}\n\tfor k, v := range m {\n\t}\n\tswitch x := y.(type) {\n\tcase int:\n\tdefault:\n\t}\n\tselect {\n\tcase v := <-c:\n\tcase c <- 1:\n\tdefault:\n\t}\n}",
+    "func f() {\n\tx := []T{{a: 1}, {2}}\n\ty := map[string]struct{ a int }{\"k\": {1}}\n\tgo func() {}()\n\tdefer g(x...)\nL:\n\tgoto L\n}",
+    "const (\n\ta = iota\n\tb\n\tc int = 3\n)",
+    "var (\n\ta, b int = 1, 2\n\tc = f[int](x)[1:2:3].(T)\n)",
+    "import (\n\t\"a\"\n\tb \"c\"\n\t. \"d\"\n\t_ \"e\"\n)",
+]
+
+
+def _snippet_tokens(src):
+    return [(p, k, t) for p, k, t in spec_lex(src) if p is not None]
+
+
+def comment_injection_cases(snippets=REREAD_SNIPPETS, pairs=True):
+    """a comment in every token gap of every snippet (general comment; line comment + newline; general
+    comment spanning a newline), and at every pair of gaps for the general comment"""
+    cases = []
+    for sn in snippets:
+        src0 = "package p\n\n" + sn + "\n"
+        toks = _snippet_tokens(src0)
+        cuts = [p for p, k, t in toks] + [len(src0)]
+        for i, c in enumerate(cuts):
+            for cm in ("/*c%d*/" % i, " // c%d\n" % i, "/*c%d\nd*/" % i):
+                cases.append(Case(src0[:c] + cm + src0[c:], "F-comment-gap", note=sn[:30]))
+        if pairs:
+            for i in range(0, len(cuts), 2):
+                for j in range(i + 1, len(cuts), 3):
+                    a, b = cuts[i], cuts[j]
+                    cases.append(Case(src0[:a] + "/*a*/" + src0[a:b] + " // b\n" + src0[b:], "F-comment-pair", note=sn[:30]))
+    return cases
